@@ -164,6 +164,36 @@ def word_forms(chk):
         same = (qa == qb) if not hasattr(qa, "units") or not hasattr(qb, "units") else (qa.units == qb.units and abs(qa.magnitude - qb.magnitude) <= 1e-12 * abs(qb.magnitude))
         if not same:
             chk.diverge({"clause": "word-form", "text": a}, {"a": a, "b": b, "parsed_a": str(qa), "parsed_b": str(qb)})
+    # names given as keyword values stand for those values - also when they spell a unit (m, s, g, h, a ...), before and after the
+    # registry has seen the unit of that name
+    Q = u.Quantity
+    for warm in (False, True):
+        uu = pint.UnitRegistry()
+        if warm:
+            for nm in ("m", "s", "g", "h", "a", "kilometer", "km", "x", "t"):
+                try:
+                    uu.parse_units(nm)
+                except Exception:
+                    pass
+        Qq = uu.Quantity
+        kcases = [("a * x", {"a": 2, "x": 3}, lambda v: v["a"] * v["x"]),
+                  ("m * g", {"m": Qq(2, "kilogram"), "g": Qq(9.5, "meter / second ** 2")}, lambda v: v["m"] * v["g"]),
+                  ("2 h + 1 meter", {"h": Qq(3, "meter")}, lambda v: 2 * v["h"] + Qq(1, "meter")),
+                  ("s ** 2 / t", {"s": Qq(4, "meter"), "t": Qq(2, "second")}, lambda v: v["s"] ** 2 / v["t"]),
+                  ("3 kilometer + km", {"km": Qq(500, "meter")}, lambda v: Qq(3, "kilometer") + v["km"]),
+                  ("k * meter", {"k": 5}, lambda v: 5 * Qq(1, "meter")),
+                  ("2 x y", {"x": 3, "y": Qq(4, "second")}, lambda v: 2 * 3 * v["y"])]
+        for text, vals, f in kcases:
+            chk.case(("keyword-values", text, warm))
+            try:
+                got, want = uu.parse_expression(text, **vals), f(vals)
+            except Exception as e:
+                chk.diverge({"clause": "keyword-values-raise", "exc": type(e).__name__, "text": text}, {"text": text, "values": {k: str(v) for k, v in vals.items()}, "after_lookups": warm})
+                continue
+            # (a pure number comes back as a dimensionless quantity)
+            same = (got == want) and (got.units == want.units if hasattr(want, "units") else (not hasattr(got, "units") or got.unitless))
+            if not same:
+                chk.diverge({"clause": "keyword-values", "text": text}, {"text": text, "values": {k: str(v) for k, v in vals.items()}, "expected": str(want), "observed": str(got), "after_lookups": warm})
     # integers stay integers; decimals take the registry's type
     for text, T, val in (("3 m", int, 3), ("3.0 m", float, 3.0), ("6 m / 2", float, 3.0), ("2 ** 3 m", int, 8), ("7 // 2 m", int, 3), ("1_000 m", int, 1000),
                          ("9_007_199_254_740_993 m", int, 9007199254740993), ("7_0 // 8 m", int, 8), ("1_0.5 m", float, 10.5), ("1e0_1 m", float, 10.0)):
